@@ -128,17 +128,62 @@ theorem termWTs_Lx (cs : List (Ext K)) (vs : List String) (hc : ∀ c ∈ cs, Go
 
 theorem dig_nameChar {c : Char} (h : isDig c = true) : isNameChar c = true := by simp [isNameChar, h]
 
-theorem nameWord_rowName (i : Nat) (name : String) (h : name.toList ≠ [] → nameOk name = true) :
-    nameWord (rowName i name) = true := by
-  unfold rowName
-  cases hn : name.toList with
-  | nil =>
-    simp only [List.isEmpty_nil, if_true, nameWord, Bool.and_eq_true, List.all_eq_true]
-    exact ⟨by decide, fun c hc => dig_nameChar (natChars_dig _ c hc)⟩
-  | cons a as =>
-    have := h (by simp [hn])
-    simp only [nameOk, Bool.and_eq_true] at this
-    simpa [hn] using this.1
+/-- a word starting with `c` is not a word of the LP format -/
+theorem c_not_reserved (rest : List Char) : isReserved ('c' :: rest) = false := by
+  have : lowerChar 'c' = 'c' := by decide
+  simp [isReserved, isKw, lower, this, reserved, kwMin, kwMax, kwSt1, kwBounds, kwBinary, kwGeneral, kwEnd, kwFree, kwInf]
+
+theorem nameWord_candidate (m k : Nat) : nameWord (candidate ('c' :: natChars m) k) = true := by
+  have hd : ∀ n, ∀ c ∈ natChars n, isNameChar c = true := fun n c hc => dig_nameChar (natChars_dig n c hc)
+  unfold candidate
+  split
+  · simp only [nameWord, Bool.and_eq_true, List.all_eq_true]
+    exact ⟨by decide, hd m⟩
+  · simp only [List.cons_append, nameWord, Bool.and_eq_true, List.all_eq_true, List.mem_append, List.mem_cons]
+    refine ⟨by decide, ?_⟩
+    rintro c (hc | rfl | hc)
+    · exact hd m c hc
+    · decide
+    · exact hd k c hc
+
+theorem candidate_head (m k : Nat) : ∃ rest, candidate ('c' :: natChars m) k = 'c' :: rest := by
+  unfold candidate; split <;> exact ⟨_, rfl⟩
+
+theorem freshName_is_candidate (used : List (List Char)) (base : List Char) (f k : Nat) :
+    ∃ j, freshName used base f k = candidate base j := by
+  induction f generalizing k with
+  | zero => exact ⟨k, rfl⟩
+  | succ f ih =>
+    simp only [freshName]
+    split
+    · exact ih (k + 1)
+    · exact ⟨k, rfl⟩
+
+/-- what the lemmas need to know about an exported row name -/
+def RowNameOk (n : List Char) : Prop := nameWord n = true ∧ isReserved n = false
+
+theorem rowNamesFrom_ok {α : Type} (rows : List (LinRow α))
+    (h : ∀ r ∈ rows, r.name.toList ≠ [] → nameOk r.name = true) (used : List (List Char)) (i : Nat) :
+    ∀ n ∈ rowNamesFrom used i rows, RowNameOk n := by
+  induction rows generalizing used i with
+  | nil => simp [rowNamesFrom]
+  | cons r rs ih =>
+    have ih' := ih (fun r' h' => h r' (by simp [h']))
+    intro n hn
+    simp only [rowNamesFrom] at hn
+    split at hn
+    · rcases List.mem_cons.mp hn with rfl | hn
+      · obtain ⟨j, e⟩ := freshName_is_candidate used ('c' :: natChars (i + 1)) (used.length + 1) 0
+        rw [e]
+        obtain ⟨rest, e'⟩ := candidate_head (i + 1) j
+        exact ⟨nameWord_candidate _ _, by rw [e']; exact c_not_reserved rest⟩
+      · exact ih' _ _ n hn
+    · rename_i hne
+      rcases List.mem_cons.mp hn with rfl | hn
+      · have := h r (by simp) (by intro e; simp [e] at hne)
+        simp only [nameOk, Bool.and_eq_true, Bool.not_eq_true'] at this
+        exact this
+      · exact ih' _ _ n hn
 
 theorem relWT_Lx (c : Cmp) : Lx (relWT c).1 (relWT c).2 := by
   cases c <;> exact ⟨by decide, by rfl⟩
@@ -246,24 +291,28 @@ theorem boundLinesT_Lx (ds : List (DomVar (Ext K))) (hname : ∀ d ∈ ds, nameO
         · exact range lo hi (by simp [boundNums, hty]) (by simp [boundNums, hty])
         · exact hrest l hl
 
-theorem rowLinesT_Lx (vars : List String) (hv : ∀ v ∈ vars, nameOk v = true) (i : Nat) (rows : List (LinRow (Ext K)))
-    (hr : ∀ r ∈ rows, (r.name.toList ≠ [] → nameOk r.name = true) ∧ (∀ c ∈ r.coeffs, Good tok lexN c) ∧ Good tok lexN r.rhs) :
-    ∀ l ∈ rowLinesT tok vars i rows, ∀ p ∈ l.wts, Lx p.1 p.2 := by
-  induction rows generalizing i with
-  | nil => simp [rowLinesT]
+theorem rowLinesT_Lx (vars : List String) (hv : ∀ v ∈ vars, nameOk v = true) (ns : List (List Char))
+    (hn : ∀ n ∈ ns, RowNameOk n) (rows : List (LinRow (Ext K)))
+    (hr : ∀ r ∈ rows, (∀ c ∈ r.coeffs, Good tok lexN c) ∧ Good tok lexN r.rhs) :
+    ∀ l ∈ rowLinesT tok vars ns rows, ∀ p ∈ l.wts, Lx p.1 p.2 := by
+  induction rows generalizing ns with
+  | nil => cases ns <;> simp [rowLinesT]
   | cons r rs ih =>
-    intro l hl
-    simp only [rowLinesT] at hl
-    rcases List.mem_cons.mp hl with rfl | hl
-    · obtain ⟨h1, h2, h3⟩ := hr r (by simp)
-      intro p hp
-      simp only [rowLineT, List.mem_cons, List.mem_append, List.not_mem_nil, or_false] at hp
-      rcases hp with rfl | hp | rfl | rfl
-      · exact Lx.nameColon (nameWord_rowName i r.name h1)
-      · exact termWTs_Lx tok lexN r.coeffs vars h2 hv p hp
-      · exact relWT_Lx r.cmp
-      · exact numWT_Lx tok lexN h3
-    · exact ih (i + 1) (fun r' h' => hr r' (by simp [h'])) l hl
+    cases ns with
+    | nil => simp [rowLinesT]
+    | cons n ns =>
+      intro l hl
+      simp only [rowLinesT] at hl
+      rcases List.mem_cons.mp hl with rfl | hl
+      · obtain ⟨h2, h3⟩ := hr r (by simp)
+        intro p hp
+        simp only [rowLineT, List.mem_cons, List.mem_append, List.not_mem_nil, or_false] at hp
+        rcases hp with rfl | hp | rfl | rfl
+        · exact Lx.nameColon (hn n (by simp)).1
+        · exact termWTs_Lx tok lexN r.coeffs vars h2 hv p hp
+        · exact relWT_Lx r.cmp
+        · exact numWT_Lx tok lexN h3
+      · exact ih ns (fun n' h' => hn n' (by simp [h'])) (fun r' h' => hr r' (by simp [h'])) l hl
 
 theorem namesLine_Lx (ns : List String) (h : ∀ n ∈ ns, nameOk n = true) : ∀ p ∈ ns.map nameWT, Lx p.1 p.2 := by
   intro p hp
@@ -302,10 +351,9 @@ theorem linesLP_Lx (lm : LinModel (Ext K)) (wf : WellFormed tok lexN lm) :
     fun v hv => wf.toks v (by simp [hv]) (wf.finite v hv)
   have hobj : ∀ c ∈ lm.objective, Good tok lexN c := fun c hc => good c (by simp [coefNums, hc])
   have hoff : Good tok lexN lm.offset := good _ (by simp [coefNums])
-  have hrows : ∀ r ∈ lm.rows, (r.name.toList ≠ [] → nameOk r.name = true) ∧ (∀ c ∈ r.coeffs, Good tok lexN c) ∧
-      Good tok lexN r.rhs := by
+  have hrows : ∀ r ∈ lm.rows, (∀ c ∈ r.coeffs, Good tok lexN c) ∧ Good tok lexN r.rhs := by
     intro r hr
-    refine ⟨wf.rows_ok r hr, fun c hc => good c ?_, good _ ?_⟩
+    refine ⟨fun c hc => good c ?_, good _ ?_⟩
     · simp only [coefNums, List.mem_append, List.mem_flatMap]; right; exact ⟨r, hr, by simp [hc]⟩
     · simp only [coefNums, List.mem_append, List.mem_flatMap]; right; exact ⟨r, hr, by simp⟩
   intro l hl
@@ -329,7 +377,7 @@ theorem linesLP_Lx (lm : LinModel (Ext K)) (wf : WellFormed tok lexN lm) :
     · intro p hp
       simp only [List.mem_cons, List.not_mem_nil, or_false] at hp
       rcases hp with rfl | rfl <;> exact kw_Lx (by decide)
-  · exact rowLinesT_Lx tok lexN lm.vars wf.vars_ok 0 lm.rows hrows l hl
+  · exact rowLinesT_Lx tok lexN lm.vars wf.vars_ok _ (rowNamesFrom_ok lm.rows wf.rows_ok _ _) lm.rows hrows l hl
   · split at hl
     · rcases List.mem_cons.mp hl with rfl | hl
       · intro p hp; simp only [List.mem_singleton] at hp; subst hp; exact kw_Lx (by decide)
